@@ -97,6 +97,9 @@ func c11Run(c *runner.Ctx) {
 		c.Note("world construction failed (C04's business): " + firstLine(err.Error()))
 		return
 	}
+	if c.Idx%2 == 0 { // hostile history: merges aborted inside the footer and elsewhere precede the files checked below
+		abortedMergeHistory(c)
+	}
 	for si, sg := range w.Segs {
 		desc := func() string {
 			return fmt.Sprintf("shape=%s segment %d: kind=%s mode=%d docs=%d fields=%q", shape, si, sg.Kind, sg.Mode, len(sg.X.Docs), sg.X.Fields)
